@@ -20,6 +20,7 @@ import (
 	"time"
 
 	"github.com/maypok86/otter/v2/internal/verifkit"
+	"github.com/maypok86/otter/v2/stats"
 )
 
 type c02Scenario struct {
@@ -58,6 +59,13 @@ type c02Result struct {
 	Events []c02Ev     `json:"events"`
 	Autos  int         `json:"autos"`
 	Final  int         `json:"final"`
+	// C20, concurrent form: tallies kept by the driver vs the recorder's snapshot at quiescence
+	Lookups  int64   `json:"lookups"`
+	Loads    int64   `json:"loads"`
+	NOver    int64   `json:"nover"`  // Overflow removals reported (all keys)
+	NExp     int64   `json:"nexp"`   // Expiration removals reported (all keys)
+	St       []int64 `json:"st"`     // hits, misses, evictions, evictionWeight, loadOk, loadFail
+	StMid    []int64 `json:"stmid"`  // a snapshot taken while the clients were running (monotonicity)
 }
 
 var c02Points = map[string]bool{
@@ -67,7 +75,7 @@ var c02Points = map[string]bool{
 }
 
 func runC02Scenario(sc c02Scenario) c02Result {
-	res := c02Result{T: "c02", Sc: sc, Events: []c02Ev{}}
+	res := c02Result{T: "c02", Sc: sc, Events: []c02Ev{}, St: []int64{0, 0, 0, 0, 0, 0}, StMid: []int64{0, 0, 0, 0, 0, 0}}
 	var seq atomic.Int64
 	var mu sync.Mutex
 	log := func(e c02Ev) {
@@ -77,10 +85,18 @@ func runC02Scenario(sc c02Scenario) c02Result {
 		mu.Unlock()
 	}
 	clk := newManualClock(1_000_000_000)
+	ctr := stats.NewCounter()
+	var lookups, nover, nexp atomic.Int64
 	o := &Options[int, int]{
 		Clock:           clk,
 		InitialCapacity: sc.InitCap,
+		StatsRecorder:   ctr,
 		OnAtomicDeletion: func(e DeletionEvent[int, int]) {
+			if e.Cause == CauseOverflow {
+				nover.Add(1)
+			} else if e.Cause == CauseExpiration {
+				nexp.Add(1)
+			}
 			if e.Key >= 1000 || !e.Cause.IsEviction() {
 				return
 			}
@@ -110,6 +126,12 @@ func runC02Scenario(sc c02Scenario) c02Result {
 		rng := rand.New(rand.NewSource(sc.Seed*977 + int64(cid)))
 		return func() {
 			for j := 0; j < sc.Ops; j++ {
+				if cid == 1 && j == sc.Ops/2 {
+					st := c.Stats()
+					mu.Lock()
+					res.StMid = []int64{int64(st.Hits), int64(st.Misses), int64(st.Evictions), int64(st.EvictionWeight), int64(st.LoadSuccesses), int64(st.LoadFailures)}
+					mu.Unlock()
+				}
 				k := rng.Intn(sc.Keys)
 				v := cid*10000 + j + 1
 				nops := 9
@@ -129,6 +151,7 @@ func runC02Scenario(sc c02Scenario) c02Result {
 					log(c02Ev{C: cid, T: "call", Op: "get", K: k})
 					var got int
 					var ok bool
+					lookups.Add(1)
 					if x == 3 {
 						got, ok = c.GetIfPresent(k)
 					} else {
@@ -144,6 +167,7 @@ func runC02Scenario(sc c02Scenario) c02Result {
 					act := []string{"write", "inv", "cancel"}[rng.Intn(3)]
 					log(c02Ev{C: cid, T: "call", Op: "cmp", K: k, V: v})
 					saw, nc := -1, 0
+					lookups.Add(1)
 					got, ok := c.Compute(k, func(old int, found bool) (int, ComputeOp) {
 						nc++
 						saw = -1
@@ -166,6 +190,7 @@ func runC02Scenario(sc c02Scenario) c02Result {
 					act := []string{"write", "write", "cancel"}[rng.Intn(3)]
 					log(c02Ev{C: cid, T: "call", Op: "cia", K: k, V: v})
 					nc := 0
+					lookups.Add(1)
 					got, ok := c.ComputeIfAbsent(k, func() (int, bool) {
 						nc++
 						return v, act == "cancel"
@@ -178,6 +203,7 @@ func runC02Scenario(sc c02Scenario) c02Result {
 					act := []string{"write", "inv", "cancel"}[rng.Intn(3)]
 					log(c02Ev{C: cid, T: "call", Op: "cip", K: k, V: v})
 					saw, nc := -1, 0
+					lookups.Add(1)
 					got, ok := c.ComputeIfPresent(k, func(old int) (int, ComputeOp) {
 						nc++
 						saw = old
@@ -202,6 +228,7 @@ func runC02Scenario(sc c02Scenario) c02Result {
 					log(c02Ev{C: cid, T: "ret", Op: "inv", K: k, RV: old, ROK: b2i(ok), Saw: -1})
 				default:
 					log(c02Ev{C: cid, T: "call", Op: "ldget", K: k})
+					lookups.Add(1)
 					got, err := c.Get(ctx, k, loader)
 					hit := 1
 					if got >= 500000 {
@@ -269,6 +296,14 @@ func runC02Scenario(sc c02Scenario) c02Result {
 	}
 	stop.Store(true)
 	time.Sleep(2 * time.Millisecond)
+	c.CleanUp()
+	time.Sleep(2 * time.Millisecond)
+	vec := func() []int64 {
+		st := c.Stats()
+		return []int64{int64(st.Hits), int64(st.Misses), int64(st.Evictions), int64(st.EvictionWeight), int64(st.LoadSuccesses), int64(st.LoadFailures)}
+	}
+	res.St = vec()
+	res.Lookups, res.Loads, res.NOver, res.NExp = lookups.Load(), loads.Load(), nover.Load(), nexp.Load()
 	mu.Lock()
 	sort.Slice(res.Events, func(i, j int) bool { return res.Events[i].Seq < res.Events[j].Seq })
 	for _, e := range res.Events {
